@@ -206,3 +206,27 @@ PROPS['C13'] = dict(
 for _p in ('C01', 'C02', 'C04', 'C05', 'C14', 'C06'):
     PROPS[_p].setdefault('static', [])
     PROPS[_p]['static'] = list(PROPS[_p]['static']) + [('solver-constants-threshold-1e-6-and-6-digits', ST.solver_constants)]
+
+A_IO = "open/read/write/eval are external: a file opened for writing is a ghost list of the strings written to it (plus its path and mode); read() returns an uninterpreted CONTENT(path); eval is an uninterpreted EVAL; x.split(c)[0] / [-1] are the z3 string terms 'before the first / after the last occurrence of c'"
+A_FMT = "A-FMT: {value} in an f-string is an uninterpreted, type-indexed function fmt(value); that fmt followed by ast.literal_eval gives the value back (None, bools, ints, floats, strings, nested lists) is covered by the bounded executable contract only"
+PROPS['C16'] = dict(
+    functions=fns('C16'),
+    assumptions=[A_LIST, A_IO, A_FMT, "an entry of the result dictionary is a record with the 12 fixed keys; every field except msg is an opaque value (only == and formatting are used)"],
+    trusted_base=['spec function Blocks of contracts/conditionalrewards.py: the 16 strings of a block with the field each line prints (written from the statement)'],
+    undecided_clauses=["'every line reads back to exactly the value the batch run produced' needs repr/format/eval semantics (A-FMT): bounded -- the real save_results_to_file is run on real batch results and every line is parsed back with ast.literal_eval",
+                       "'the input file itself is read into the same games it textually denotes' is eval's semantics: the contract only fixes that the file named by the argument is read once and its evaluation returned iff it is a dict"],
+    level_text="From the real AST, for result dictionaries with any number of entries and any values: save_results_to_file opens exactly 'outputs/' + <last path component up to its first dot> + '.txt' for writing and the sequence of strings it writes equals Blocks(results): one block per entry in dictionary order, each of the 14 lines printing the field the statement names (message, counts, iteration counts, both strategy lists, their equality flag, probabilities, probabilities under minimal reward, rewards, rewards under minimal reachability, total time); read_dict_from_file returns EVAL(CONTENT(file)) iff it is a dict and raises ValueError otherwise.",
+    level_note="Trusted: z3 (sequence/string theory for the path), the encoder's ghost model of files, A-FMT. The textual round trip is bounded only.",
+)
+
+A_SUMMARY = "A-SUMMARY: in run_games, StochasticGame(**d), count_transitions() and solve() are replaced by summary contracts over an abstract heap: solve returns SOL(description, prune) or raises ValueError(ERR(description, prune)) exactly when SOLFAIL(description, prune) -- i.e. solving is a function of the description and the mode and changes neither; this is what C10 establishes (frame + determinism); copy.deepcopy returns a fresh structurally equal object; time.time() is havocked"
+PROPS['C12'] = dict(
+    functions=fns('C12'),
+    static=[('determinism-of-the-solver-cone', ST.determinism(TAD_CONE + [('reverse_dfs', f) for f in ('reverse_dfs', 'reverse_dfs_recursive', 'reverse_transition_list', 'reverse_transition_list_core', 'list_of_tuples_to_dict_of_lists', 'add_missing_states')]))],
+    assumptions=[A_LIST, A_SUMMARY, A_IO, A_PYVAL, "game names are pairwise distinct and no name equals another name + '_no_prune' (the collision case is the known finding F-NAME and is excluded by this precondition)"],
+    trusted_base=['the summary contracts of StochasticGame.__init__/count_transitions/solve (linked to the real functions by C09/C10, not mechanically)'],
+    undecided_clauses=["that the summary contracts hold of the real StochasticGame methods is the content of C10 (frame, determinism) and is linked by hand",
+                       "entries of games whose names collide (x and x_no_prune) overwrite each other: known finding F-NAME"],
+    level_text="From the real AST of run_games, for dictionaries with any number of games in any order: after the loop, for EVERY game the result holds an entry under its name and one under name_no_prune; if the pruned solve succeeds the pruned entry carries 'Game solved' and exactly the eight values, state and transition counts that solving that description alone gives (SOL of its own description only), and likewise the unpruned entry (or the error message if only the unpruned solve fails); if the pruned solve raises ValueError the entry carries 'Error while solving the game: ' + that message, the unpruned entry is 'Game not solved', both without results; the descriptions of all games are unchanged; nothing but ValueError is caught. Independence of order and of the other games is immediate from the shape of this postcondition. The validating prefix of solve, check_game, check_next_states, init_states (C09) and read_dict_from_file are in the cone.",
+    level_note="Trusted: z3 (incl. strings for the _no_prune keys), the encoder, A-SUMMARY, A-DEEPCOPY. Name collisions are excluded by precondition (known finding F-NAME).",
+)
